@@ -2,6 +2,7 @@ package main
 
 import (
 	"fmt"
+	"os"
 	"go/token"
 	"go/types"
 	"sort"
@@ -87,7 +88,7 @@ func (f *Frame) findLoops() {
 		}
 		if strings.HasPrefix(h.Comment, "rangeindex.loop") {
 			for _, in := range h.Instrs {
-				if p, ok := in.(*ssa.Phi); ok {
+				if p, ok := in.(*ssa.Phi); ok && p.Comment == "rangeindex" {
 					li.isRange = p
 					break
 				}
@@ -110,7 +111,7 @@ func (f *Frame) collectDebug() {
 				if name == "" {
 					continue
 				}
-				f.debug[name] = append(f.debug[name], dbgRef{b, i, d.X, d.IsAddr})
+				f.debug[name] = append(f.debug[name], dbgRef{d.Object(), b, i, d.X, d.IsAddr})
 			}
 		}
 	}
@@ -184,6 +185,7 @@ func (f *Frame) run(args []string, entryReach string, entry *State) {
 		}
 		f.out[b] = f.cur
 	}
+	f.flushLoops()
 }
 
 func (f *Frame) phiTerm(phi *ssa.Phi, preds []*ssa.BasicBlock, edges []string) string {
@@ -324,6 +326,44 @@ func (f *Frame) loopHead(li *loopInfo, preds []*ssa.BasicBlock, edges []string) 
 		}
 	}
 	li.headPhis = headPhis
+	// loop frame from the loop's modifies clause
+	li.frameKeys = nil
+	li.frameCond = map[string]string{}
+	if li.spec != nil && li.spec.HasMod {
+		env := f.baseEnv(entryState)
+		env.lookup = func(name string) (TV, bool) { return f.lookupVarAt(name, li.head, entryState) }
+		targets := f.resolveModifies(li.spec.Modifies, env)
+		byKey := map[string][]modTarget{}
+		for _, t := range targets {
+			byKey[t.key] = append(byKey[t.key], t)
+		}
+		allocIn := f.get(entryState, vc.allocKey())
+		for _, k := range mk {
+			if !strings.HasPrefix(vc.eng.keySort[k], "(Array Int") {
+				continue
+			}
+			whole := false
+			var excl []string
+			for _, t := range byKey[k] {
+				if t.idx == "" && t.cond == "" {
+					whole = true
+				}
+				if t.idx != "" {
+					excl = append(excl, Not(S("=", "r!m", t.idx)))
+				}
+				if t.cond != "" {
+					excl = append(excl, Not(t.cond))
+				}
+			}
+			if whole {
+				continue
+			}
+			cond := And(append([]string{S("<=", "0", "r!m"), S("<=", "r!m", allocIn)}, excl...)...)
+			li.frameKeys = append(li.frameKeys, k)
+			li.frameCond[k] = cond
+			vc.assume(Imp(f.curReach, fmt.Sprintf("(forall ((r!m Int)) (! (=> %s (= (select %s r!m) (select %s r!m))) :pattern ((select %s r!m))))", cond, f.cur.m[k], f.get(entryState, k), f.cur.m[k])))
+		}
+	}
 	li.headState = f.cur.clone()
 	// automatic invariant for range-over-slice index
 	if li.isRange != nil {
@@ -391,13 +431,53 @@ func (f *Frame) backEdge(li *loopInfo, from *ssa.BasicBlock, cond string) {
 	if li.spec != nil {
 		for i, inv := range li.spec.Invs {
 			t := f.loopExpr(li, inv, phis, f.cur, li.headState)
-			f.oblige("inv-preserved", fmt.Sprintf("loop%d/%s/preserved", li.n, clauseName(inv, "inv", i)), t, inv.Text, token.NoPos)
+			li.addPending(fmt.Sprintf("loop%d/%s/preserved", li.n, clauseName(inv, "inv", i)), "inv-preserved", Imp(cond, t), inv.Text)
 		}
 		if li.spec.Decreases != nil {
 			t := f.loopExpr(li, li.spec.Decreases, phis, f.cur, li.headState)
-			f.oblige("decreases", fmt.Sprintf("loop%d/decreases", li.n), And(S("<=", "0", li.measure), S("<", t, li.measure)), li.spec.Decreases.Text, token.NoPos)
+			li.addPending(fmt.Sprintf("loop%d/decreases", li.n), "decreases", Imp(cond, And(S("<=", "0", li.measure), S("<", t, li.measure))), li.spec.Decreases.Text)
+		}
+		// loop frame: the body changes only what the loop's modifies clause lists
+		if len(li.frameKeys) > 0 {
+			for _, k := range li.frameKeys {
+				nv, hv := f.get(f.cur, k), f.get(li.headState, k)
+				if nv == hv {
+					continue
+				}
+				goal := fmt.Sprintf("(forall ((r!m Int)) (=> %s (= (select %s r!m) (select %s r!m))))", li.frameCond[k], nv, hv)
+				li.addPending(fmt.Sprintf("loop%d/frame:%s", li.n, k), "frame", Imp(cond, goal), "loop body writes only what the loop modifies clause lists ("+k+")")
+			}
 		}
 	}
+}
+
+func (li *loopInfo) addPending(name, kind, goal, text string) {
+	for _, p := range li.pending {
+		if p.name == name && os.Getenv("GOVC_SPLIT_EDGES") == "" {
+			p.goals = append(p.goals, goal)
+			return
+		}
+	}
+	li.pending = append(li.pending, &pendingObl{name: name, kind: kind, text: text, goals: []string{goal}})
+}
+
+// flushLoops emits the back-edge obligations collected for every loop, one
+// obligation per clause conjoined over the back edges.
+func (f *Frame) flushLoops() {
+	var ls []*loopInfo
+	for _, li := range f.loops {
+		ls = append(ls, li)
+	}
+	sort.Slice(ls, func(i, j int) bool { return ls[i].n < ls[j].n })
+	save := f.curReach
+	f.curReach = "true"
+	for _, li := range ls {
+		for _, p := range li.pending {
+			f.oblige(p.kind, p.name, And(p.goals...), p.text, token.NoPos)
+		}
+		li.pending = nil
+	}
+	f.curReach = save
 }
 
 // loopExpr translates a loop clause with the loop's phis bound to the given terms.
@@ -426,11 +506,27 @@ func (f *Frame) loopExpr(li *loopInfo, c *Clause, phis map[*ssa.Phi]string, st *
 	return tv.T
 }
 
-// lookupVarAt resolves a source variable name to its value at the top of block b.
+// lookupVarAt resolves a source variable name to its value at the top of block b
+// in state st: the nearest dominating reference decides which object is meant
+// (shadowing); an address-taken variable is read from its cell.
 func (f *Frame) lookupVarAt(name string, b *ssa.BasicBlock, st *State) (TV, bool) {
-	// walk dominators
+	cellOf := func(obj types.Object) (TV, bool) {
+		for _, r := range f.debug[name] {
+			if r.obj != obj || !r.addr {
+				continue
+			}
+			if lv, ok := f.lvals[r.val]; ok {
+				return TV{f.readLV(st, lv), lv.ty}, true
+			}
+			if t, ok := f.vals[r.val]; ok {
+				if pt, _ := r.val.Type().Underlying().(*types.Pointer); pt != nil {
+					return TV{f.loadPtr(st, t, pt.Elem()), pt.Elem()}, true
+				}
+			}
+		}
+		return TV{}, false
+	}
 	for d := b.Idom(); d != nil; d = d.Idom() {
-		// scan instructions in reverse
 		for i := len(d.Instrs) - 1; i >= 0; i-- {
 			switch in := d.Instrs[i].(type) {
 			case *ssa.Phi:
@@ -441,17 +537,10 @@ func (f *Frame) lookupVarAt(name string, b *ssa.BasicBlock, st *State) (TV, bool
 				}
 			case *ssa.DebugRef:
 				if in.Object() != nil && in.Object().Name() == name {
+					if tv, ok := cellOf(in.Object()); ok {
+						return tv, true
+					}
 					if in.IsAddr {
-						if lv, ok := f.lvals[in.X]; ok {
-							return TV{f.readLV(st, lv), lv.ty}, true
-						}
-						// heap cell
-						if t, ok := f.vals[in.X]; ok {
-							pt, _ := in.X.Type().Underlying().(*types.Pointer)
-							if pt != nil {
-								return TV{f.loadPtr(st, t, pt.Elem()), pt.Elem()}, true
-							}
-						}
 						continue
 					}
 					if t, ok := f.vals[in.X]; ok {
@@ -464,20 +553,20 @@ func (f *Frame) lookupVarAt(name string, b *ssa.BasicBlock, st *State) (TV, bool
 			}
 		}
 	}
-	if tv, ok := f.params[name]; ok {
-		return tv, true
-	}
-	for _, fv := range f.fn.FreeVars {
-		if fv.Name() == name {
-			if t, ok := f.vals[fv]; ok {
-				pt, _ := fv.Type().Underlying().(*types.Pointer)
-				if pt != nil {
-					return TV{f.loadPtr(st, t, pt.Elem()), pt.Elem()}, true
+	// parameters: value or cell
+	for _, p := range f.fn.Params {
+		if p.Name() == name {
+			if p.Object() != nil {
+				if tv, ok := cellOf(p.Object()); ok {
+					return tv, true
 				}
+			}
+			if tv, ok := f.params[name]; ok {
+				return tv, true
 			}
 		}
 	}
-	return TV{}, false
+	return f.freeVar(name, st)
 }
 
 // lookupVarEnd resolves a variable at the end of the function (for ensures with
